@@ -20,7 +20,7 @@ import ast
 
 from ..cfg import CFG
 from ..flow import ReachingDefs, yields_in
-from ..project import AnalysisError, call_name, kwarg, norm, qualname_of, walk_no_nested
+from ..project import AnalysisError, call_name, kwarg, norm, qualname_of, walk_no_nested, order
 from ..roles import CONSTRAINTS, MARSHAL
 
 MODE = "abort_on_error"
@@ -263,7 +263,7 @@ def classes_defining(project, meth):
 
 def call_index(fn, call):
     calls = sorted((c for c in walk_no_nested(fn) if isinstance(c, ast.Call) and norm(c.func) == norm(call.func)),
-                   key=lambda c: (c.lineno, c.col_offset))
+                   key=order)
     return calls.index(call) + 1
 
 
